@@ -118,6 +118,8 @@ def main(args):
                 run.diverge("panic", "server panicked: " + res["panic"][:300], s, None)
             elif res.get("stuck"):
                 run.diverge("stuck", res["stuck"][:900], s, None)
+        # code -> spec: the events recorded during the free runs are validated by TLC against DiagTrace.tla
+        validate_traces(run, streams, sres)
         seen = set()
         for m in RACE.finditer(err):
             if "hledger-lsp/internal/" not in m.group(1):
@@ -147,6 +149,44 @@ def main(args):
     run.finish(confirm=lambda d: confirm(run, d))
 
 
+def validate_traces(run, streams, sres):
+    items = [(s, r["trace"]) for s, r in zip(streams, sres) if r.get("trace") and not r.get("stuck") and not r.get("skipped")]
+    pos = 0
+    while pos < len(items):
+        chunk = items[pos:pos + 150]
+        path = os.path.join(run.scratch, "diagtrace-%d.ndjson" % pos)
+        owner = []
+        with open(path, "w") as f:
+            for k, (s, tr) in enumerate(chunk):
+                f.write(json.dumps({"e": "reset"}) + "\n")
+                owner.append(k)
+                for ev in tr:
+                    f.write(json.dumps(ev) + "\n")
+                    owner.append(k)
+        c = "CONSTANT TraceFile = \"%s\"\nSPECIFICATION Spec\nINVARIANTS Mark\nPOSTCONDITION Accepted\nCHECK_DEADLOCK FALSE\n" % path
+        r = run.tlc("DiagTrace", c, workers=1, timeout=1800, collect_json=False)
+        m = re.search(r"<<\"HIGHWATER\", (\d+), (\d+)>>", r.stdout)
+        if not m:
+            vf.die_tooling("DiagTrace.tla did not report its high-water mark:\n" + r.stdout[-1500:])
+        hw, ln = int(m.group(1)), int(m.group(2))
+        os.remove(path)
+        if hw == ln + 1:
+            run.extra["free_run_traces_accepted_by_DiagTrace"] = run.extra.get("free_run_traces_accepted_by_DiagTrace", 0) + len(chunk)
+            run.extra["free_run_trace_events"] = run.extra.get("free_run_trace_events", 0) + ln
+            pos += len(chunk)
+            continue
+        k = owner[hw - 1]
+        s, tr = chunk[k]
+        base = sum(1 + len(t) for _, t in chunk[:k]) + 1
+        idx = hw - 1 - base
+        run.extra["free_run_traces_accepted_by_DiagTrace"] = run.extra.get("free_run_traces_accepted_by_DiagTrace", 0) + k
+        ctx = tr[max(0, idx - 6):idx + 1]
+        run.diverge("trace-rejected:" + str(tr[idx].get("e")) + ":" + str(tr[idx].get("p", "")),
+                    "the recorded execution is not a behaviour DiagTrace.tla allows: event %d %s is rejected (preceding events %s)" % (idx, tr[idx], ctx),
+                    {"ops": s["ops"], "workspace": s["workspace"], "seed": s["seed"]}, {"trace": tr[:idx + 1][-60:]})
+        pos += k + 1
+
+
 def brief_sched(s):
     return " ".join("%s(%s%s)" % (e["e"][:3], e["uri"], ("v%d" % e["ver"]) + (">" + e["to"] if e.get("to") else "")) for e in s)
 
@@ -165,4 +205,10 @@ def confirm(run, d):
     # several times with other jitter seeds; it counts as reproduced when any of them blocks again
     copies = [dict(c, id=str(k), seed=c.get("seed", 0) + 7919 * k) for k in range(12)]
     res = run.harness("stress", copies, race=True, env_extra={"GORACE": "exitcode=0"}, args=("-par", "4"))
+    if d["sig"].startswith("trace-rejected:"):
+        before = len(run.divergences)
+        validate_traces(run, copies, res)
+        again = len(run.divergences) > before
+        del run.divergences[before:]
+        return again
     return any(r.get("stuck") for r in res) == (d["sig"] == "stuck")
